@@ -67,6 +67,8 @@ package analysis
 //@   ensures [nested_directories_rejected] err == nil ==> (forall a int, b int :: {dirOutputs[a], dirOutputs[b]} 0 <= a && a < b && b < len(dirOutputs) ==>
 //@        orderedT(graph, dirOutputs[a].target, dirOutputs[b].target) ||
 //@        !(dirOutputs[a].path == dirOutputs[b].path || hasPrefix(dirOutputs[a].path, dirOutputs[b].path + "/") || hasPrefix(dirOutputs[b].path, dirOutputs[a].path + "/")))
+//@   ensures [same_docker_tag_twice_rejected] err == nil ==> (forall p string, a int, b int :: {dockerOutputs[p][a], dockerOutputs[p][b]} has(dockerOutputs, p) && 0 <= a && a < b && b < len(dockerOutputs[p]) ==>
+//@        orderedT(graph, dockerOutputs[p][a].target, dockerOutputs[p][b].target))
 //@   ensures [same_file_written_twice_rejected] err == nil ==> (forall p string, a int, b int :: {fileMap[p][a], fileMap[p][b]} has(fileMap, p) && 0 <= a && a < b && b < len(fileMap[p]) ==>
 //@        orderedT(graph, fileMap[p][a].target, fileMap[p][b].target))
 //@   ensures [file_inside_directory_rejected] err == nil ==> (forall a int, k int :: {dirOutputs[a], fileOutputs[k]} 0 <= a && a < len(dirOutputs) && 0 <= k && k < len(fileOutputs) ==>
@@ -82,32 +84,49 @@ package analysis
 //@        (forall j int :: {fileOutputs[j]} 0 <= j && j < len(fileOutputs) ==> recOK(graph, fileOutputs[j].target))
 //@   invariant [current_target_is_node] recOK(graph, target)
 //@ loop #3
+//@   invariant [conflicts_only_grow] len(conflicts) >= len(loopentry(conflicts))
 //@   invariant [docker_records_are_nodes] forall t string, q int :: {dockerOutputs[t][q]} has(dockerOutputs, t) && 0 <= q && q < len(dockerOutputs[t]) ==> recOK(graph, dockerOutputs[t][q].target)
+//@   invariant [tag_groups_done] len(conflicts) == 0 ==> (forall p string, a int, b int :: {dockerOutputs[p][a], dockerOutputs[p][b]} seen(p) && 0 <= a && a < b && b < len(dockerOutputs[p]) ==>
+//@        orderedT(graph, dockerOutputs[p][a].target, dockerOutputs[p][b].target))
 //@ loop #4
+//@   invariant [conflicts_only_grow] len(conflicts) >= len(loopentry(conflicts))
 //@   invariant [index] i#1 >= 0 && (forall q int :: {records#1[q]} 0 <= q && q < len(records#1) ==> recOK(graph, records#1[q].target))
+//@   invariant [tag_rows_done] len(conflicts) == 0 ==> (forall a int, b int :: {records#1[a], records#1[b]} 0 <= a && a < i#1 && a < b && b < len(records#1) ==>
+//@        orderedT(graph, records#1[a].target, records#1[b].target))
 //@ loop #5
+//@   invariant [conflicts_only_grow] len(conflicts) >= len(loopentry(conflicts))
 //@   invariant [index] i#1 >= 0 && i#1 < len(records#1) && j#1 > i#1 && (forall q int :: {records#1[q]} 0 <= q && q < len(records#1) ==> recOK(graph, records#1[q].target))
+//@   invariant [tag_rows_done] len(conflicts) == 0 ==> (forall a int, b int :: {records#1[a], records#1[b]} 0 <= a && a < i#1 && a < b && b < len(records#1) ==>
+//@        orderedT(graph, records#1[a].target, records#1[b].target))
+//@   invariant [tag_row_so_far] len(conflicts) == 0 ==> (forall b int :: {records#1[b]} i#1 < b && b < j#1 && b < len(records#1) ==>
+//@        orderedT(graph, records#1[i#1].target, records#1[b].target))
 //@ loop #6
+//@   invariant [conflicts_only_grow] len(conflicts) >= len(loopentry(conflicts))
 //@   invariant [file_map_records_are_nodes] forall t string, q int :: {fileMap[t][q]} has(fileMap, t) && 0 <= q && q < len(fileMap[t]) ==> recOK(graph, fileMap[t][q].target)
 //@ loop #7
+//@   invariant [conflicts_only_grow] len(conflicts) >= len(loopentry(conflicts))
 //@   invariant [file_map_records_are_nodes] forall t string, q int :: {fileMap[t][q]} has(fileMap, t) && 0 <= q && q < len(fileMap[t]) ==> recOK(graph, fileMap[t][q].target)
 //@   invariant [groups_done] len(conflicts) == 0 ==> (forall p string, a int, b int :: {fileMap[p][a], fileMap[p][b]} seen(p) && 0 <= a && a < b && b < len(fileMap[p]) ==>
 //@        orderedT(graph, fileMap[p][a].target, fileMap[p][b].target))
 //@ loop #8
+//@   invariant [conflicts_only_grow] len(conflicts) >= len(loopentry(conflicts))
 //@   invariant [index] i#2 >= 0 && (forall q int :: {records#2[q]} 0 <= q && q < len(records#2) ==> recOK(graph, records#2[q].target))
 //@   invariant [group_rows_done] len(conflicts) == 0 ==> (forall a int, b int :: {records#2[a], records#2[b]} 0 <= a && a < i#2 && a < b && b < len(records#2) ==>
 //@        orderedT(graph, records#2[a].target, records#2[b].target))
 //@ loop #9
+//@   invariant [conflicts_only_grow] len(conflicts) >= len(loopentry(conflicts))
 //@   invariant [index] i#2 >= 0 && i#2 < len(records#2) && j#2 > i#2 && (forall q int :: {records#2[q]} 0 <= q && q < len(records#2) ==> recOK(graph, records#2[q].target))
 //@   invariant [group_rows_done] len(conflicts) == 0 ==> (forall a int, b int :: {records#2[a], records#2[b]} 0 <= a && a < i#2 && a < b && b < len(records#2) ==>
 //@        orderedT(graph, records#2[a].target, records#2[b].target))
 //@   invariant [group_row_so_far] len(conflicts) == 0 ==> (forall b int :: {records#2[b]} i#2 < b && b < j#2 && b < len(records#2) ==>
 //@        orderedT(graph, records#2[i#2].target, records#2[b].target))
 //@ loop #10
+//@   invariant [conflicts_only_grow] len(conflicts) >= len(loopentry(conflicts))
 //@   invariant [rows_done] i#3 >= 0 && (len(conflicts) == 0 ==> (forall a int, b int :: {dirOutputs[a], dirOutputs[b]} 0 <= a && a < i#3 && a < b && b < len(dirOutputs) ==>
 //@        orderedT(graph, dirOutputs[a].target, dirOutputs[b].target) ||
 //@        !(dirOutputs[a].path == dirOutputs[b].path || hasPrefix(dirOutputs[a].path, dirOutputs[b].path + "/") || hasPrefix(dirOutputs[b].path, dirOutputs[a].path + "/"))))
 //@ loop #11
+//@   invariant [conflicts_only_grow] len(conflicts) >= len(loopentry(conflicts))
 //@   invariant [rows_done] i#3 >= 0 && i#3 < len(dirOutputs) && j#3 > i#3 && (len(conflicts) == 0 ==> (forall a int, b int :: {dirOutputs[a], dirOutputs[b]} 0 <= a && a < i#3 && a < b && b < len(dirOutputs) ==>
 //@        orderedT(graph, dirOutputs[a].target, dirOutputs[b].target) ||
 //@        !(dirOutputs[a].path == dirOutputs[b].path || hasPrefix(dirOutputs[a].path, dirOutputs[b].path + "/") || hasPrefix(dirOutputs[b].path, dirOutputs[a].path + "/"))))
@@ -115,10 +134,12 @@ package analysis
 //@        orderedT(graph, dirOutputs[i#3].target, dirOutputs[b].target) ||
 //@        !(dirOutputs[i#3].path == dirOutputs[b].path || hasPrefix(dirOutputs[i#3].path, dirOutputs[b].path + "/") || hasPrefix(dirOutputs[b].path, dirOutputs[i#3].path + "/")))
 //@ loop #12
+//@   invariant [conflicts_only_grow] len(conflicts) >= len(loopentry(conflicts))
 //@   invariant [dirs_done] len(conflicts) == 0 ==> (forall a int, k int :: {dirOutputs[a], fileOutputs[k]} 0 <= a && a <= rangeindex && 0 <= k && k < len(fileOutputs) ==>
 //@        orderedT(graph, dirOutputs[a].target, fileOutputs[k].target) ||
 //@        !(fileOutputs[k].path == dirOutputs[a].path || hasPrefix(fileOutputs[k].path, dirOutputs[a].path + "/")))
 //@ loop #13
+//@   invariant [conflicts_only_grow] len(conflicts) >= len(loopentry(conflicts))
 //@   invariant [files_so_far] len(conflicts) == 0 ==> (forall k int :: {fileOutputs[k]} 0 <= k && k <= rangeindex ==>
 //@        orderedT(graph, dirRecord.target, fileOutputs[k].target) ||
 //@        !(fileOutputs[k].path == dirRecord.path || hasPrefix(fileOutputs[k].path, dirRecord.path + "/")))
